@@ -541,7 +541,17 @@ func checkLinearizable(x *Exec, r *Rig, p concParams, setup []opRec, recs [][]op
 						}
 						// joined flight: legal if some loader call for k overlapping this call produced that outcome
 						for _, lc := range r.Loads {
-							if containsKey(lc.Keys, k) && lc.Enter < rc.ret && lc.Exit > rc.call {
+							// a flight stays joinable after its loader has returned, until the operation that ran the
+							// loader has installed (or discarded) the outcome: its lifetime ends with that operation
+							flightEnd := int64(1 << 60)
+							for _, rs := range recs {
+								for _, o := range rs {
+									if o.tid == lc.Thread && o.call <= lc.Enter && lc.Exit <= o.ret {
+										flightEnd = o.ret
+									}
+								}
+							}
+							if containsKey(lc.Keys, k) && lc.Enter < rc.ret && flightEnd > rc.call {
 								if v, ok := lc.Out[k]; ok && res.OK && v == res.Val {
 									return []LinState{s}
 								}
@@ -1088,3 +1098,53 @@ func checkVolunteered(x *Exec, r *Rig, p concParams, recs [][]opRec, contents ma
 }
 
 func hasKey(m map[int]int, k int) bool { _, ok := m[k]; return ok }
+
+// checkProducerOrder (C16 at cache level): "events from one producer are consumed in the order that producer submitted
+// them". With a same-goroutine executor OnDeletion is invoked while the consumer applies the event, so for one thread's
+// successive replacements of one key (v1 -> v2, then v2 -> v3) the notification of v1 precedes that of v2.
+func checkProducerOrder(x *Exec, r *Rig, p concParams, recs [][]opRec) {
+	if p.Cfg.Executor != "caller" {
+		return
+	}
+	pos := map[int]int{}
+	for i, e := range r.Events {
+		if _, dup := pos[e.Val]; !dup {
+			pos[e.Val] = i
+		}
+	}
+	for _, rs := range recs {
+		last := map[int]int{} // key -> the value this thread replaced most recently (whose notification was seen)
+		for _, rc := range rs {
+			f := opFields(rc.op)
+			if rc.res.Panic != "" || len(f) < 2 {
+				continue
+			}
+			var replaced int
+			switch f[0] {
+			case "set":
+				if !rc.res.OK {
+					replaced = rc.res.Val
+				}
+			case "cw":
+				if rc.res.SawOK {
+					replaced = rc.res.SawVal
+				}
+			}
+			if replaced == 0 {
+				continue
+			}
+			k := atoi(f[1])
+			if prev, ok := last[k]; ok {
+				pi, okp := pos[prev]
+				ci, okc := pos[replaced]
+				if okp && okc {
+					x.Count("producer-order-pairs")
+					if pi > ci {
+						x.Fail("producer-order", "OnDeletion@"+p.Label, "one goroutine replaced %d and then %d (key %d), but the consumer applied the second event first: OnDeletion saw %d before %d", prev, replaced, k, replaced, prev)
+					}
+				}
+			}
+			last[k] = replaced
+		}
+	}
+}
